@@ -184,19 +184,21 @@ def main():
         if v['signature'] in seen:
             continue
         seen.add(v['signature'])
-        path = C.write_replay(pid, seed, len(seen), dict(property=pid, kind='failing-input', tier=tier, seed=seed,
-                              how_to_replay=f'/venv/bin/python harness/check.py --property {pid} --replay <this file>', **v))
+        payload = dict(v)
+        payload.update(property=pid, replay_kind='failing-input', tier=tier, seed=seed,
+                       how_to_replay=f'/venv/bin/python harness/check.py --property {pid} --replay <this file>')
+        path = C.write_replay(pid, seed, len(seen), payload)
         lines.append(f'VIOLATION property={pid} replay={path}')
         if len(seen) >= 5:
             break
     if not unlisted:
         if not proof['ok']:
-            path = C.write_replay(pid, seed, 'proof', dict(property=pid, kind='broken-proof', failures=proof['failures'],
+            path = C.write_replay(pid, seed, 'proof', dict(property=pid, replay_kind='broken-proof', failures=proof['failures'],
                                   theorems=proof['theorems'], note='searched the implementation for a failing input '
                                   f'({ctx.evaluations} evaluations) and found none'))
             lines.append(f'VIOLATION property={pid} replay={path} no-failing-input-found')
         elif ctx.corr_breaks:
-            path = C.write_replay(pid, seed, 'corr', dict(property=pid, kind='broken-correspondence',
+            path = C.write_replay(pid, seed, 'corr', dict(property=pid, replay_kind='broken-correspondence',
                                   breaks=ctx.corr_breaks[:10], note='model and implementation disagree; the direct '
                                   f'oracle found no failing input in {ctx.evaluations} evaluations'))
             lines.append(f'VIOLATION property={pid} replay={path} no-failing-input-found')
